@@ -157,3 +157,24 @@ def run(ctx):
                 if o.get('static'):
                     st.append(o['static'])
         ctx.ob('C24-D3', m, 'static items referenced', 'none', not [x for x in st if 'log::' not in x and 'STATIC_MAX_LEVEL' not in x], detail=str(st[:4]))
+    # ---- D5 process-wide once-initialised cells: a static OnceLock/OnceCell shared by several call sites must be initialised the same way at each of
+    # them; two different initialisers for one cell make the configuration of every later context depend on which context ran first in the process
+    cells = {}
+    for name in prog.fns():
+        f2 = prog.fn(name)
+        for bi, t in f2.calls():
+            if not re.search(r'::get_or_init$|::get_or_try_init$', t['fd']) or not t['args']:
+                continue
+            a0 = T.op_term(f2, t['args'][0])
+            m = re.match(r'^\{(alloc\d+): &std::sync::(OnceLock|LazyLock)|^\{(alloc\d+): &(std|core)::cell::OnceCell', a0)
+            if not m:
+                continue        # a cell owned by a value (e.g. a field of Context), not a process-wide static
+            key = m.group(1) or m.group(3)
+            init = [(f2.locals[a['l']].get('closure') if 'l' in a else None) or T.op_term(f2, a) for a in t['args'][1:]]
+            cells.setdefault(key, []).append((name, tuple(init), loc(t['span'])))
+    ctx.floor('static once-cells with get_or_init sites', len(cells), 2, rule='C24-D5')
+    for key, sites in sorted(cells.items()):
+        fns = sorted(set(n_ for n_, _i, _s in sites))
+        ctx.ob('C24-D5', ' / '.join(x.split('::')[-1] for x in fns), 'static once-cell', 'initialised by one function only (a cell per configuration)', len(fns) == 1,
+               detail='the same static cell is initialised from: %s' % [(n_.split('::')[-1], i[0][-40:] if i else '') for n_, i, _s in sites], site=sites[0][2])
+
